@@ -10,6 +10,7 @@ import GivaroModel.Lemmas.RecIntConv
 import GivaroModel.Lemmas.RecIntMixed
 import GivaroModel.Lemmas.RecIntBezout
 import GivaroModel.Lemmas.RecIntSignedLemmas
+import GivaroModel.Lemmas.RecIntWords
 namespace Givaro.Props.C06
 open Givaro.Model.RecInt
 
@@ -489,6 +490,77 @@ theorem rint_shr_exact {n : Nat} (b : RU n) (d : Nat) (hb : WF b) : WF (s_shr b 
 -- non-vacuity: negative and positive well-formed operands exist (−1 and 1 at 128 bits)
 example : ∃ a b : RU 1, WF a ∧ WF b ∧ sval a < 0 ∧ 0 < sval b ∧ sval b ≠ 0 :=
   ⟨ones 1, ofLimb 1 1, by simp [ones, WF, B64], by simp [ofLimb, zero, WF, B64], by decide, by decide, by decide⟩
+
+/-! ### conversions between `ruint<K>` / `rint<K>` and the built-in types (ruruint.h constructors and casts, rrint.h) -/
+/-- `ruint<K>(T b)` for every value of every **signed** built-in type (`Low(b < 0 ? -(b+1) : b)`, complemented when `b < 0`): the image
+    `b mod 2^bits`; hence `rint<K>(T b)` (`Value(b)`) has the value `b` exactly -/
+theorem from_signed_word_exact (n : Nat) (w : Int) (h0 : -(2 : Int) ^ 63 ≤ w) (h1 : w < (2 : Int) ^ 63) :
+    WF (u_of_signed n w) ∧ (val (u_of_signed n w) : Int) = w % Bn n ∧ sval (u_of_signed n w) = w := by
+  obtain ⟨hw, he⟩ := u_of_signed_ok n w (by simp only [B64]; omega) (by simp only [B64]; omega)
+  refine ⟨hw, he, ?_⟩
+  have hle : (B64 : Int) ≤ Bn n := by exact_mod_cast B64_le_Bn n
+  rw [sval_eq_swrap _ _ he]
+  exact swrap_id n w (by simp only [B64] at hle; omega) (by simp only [B64] at hle; omega)
+
+/-- `ruint<K>(T b)` for every value of every **unsigned** built-in type (`Low(b)`, the rest zero): the value `b` -/
+theorem from_unsigned_word_exact (n : Nat) (w : Nat) (h : w < B64) : WF (ofLimb n w) ∧ val (ofLimb n w) = w := ofLimb_ok n w h
+
+/-- the casts `(uint64_t)a`, `(int64_t)a`, `(uint32_t)a`, `(int32_t)a`, `(bool)a` (every `operator T()` returns `T(Low)` … `T(Value)`):
+    the value reduced modulo `2^64` resp. `2^32`, read in two's complement for the signed types; `bool` is `a ≠ 0` -/
+theorem to_word_exact {n : Nat} (a : RU n) (ha : WF a) :
+    to_u64 a = val a % 2 ^ 64 ∧
+    to_s64 a = (if val a % 2 ^ 64 < 2 ^ 63 then ((val a % 2 ^ 64 : Nat) : Int) else ((val a % 2 ^ 64 : Nat) : Int) - 2 ^ 64) ∧
+    to_u32 a = val a % 2 ^ 32 ∧
+    to_s32 a = (if val a % 2 ^ 32 < 2 ^ 31 then ((val a % 2 ^ 32 : Nat) : Int) else ((val a % 2 ^ 32 : Nat) : Int) - 2 ^ 32) ∧
+    (to_bool a = true ↔ val a ≠ 0) := by
+  have hl := ls_limb_ok a ha
+  have e32 : val a % B64 % 4294967296 = val a % 4294967296 := Nat.mod_mod_of_dvd _ (by simp only [B64]; decide)
+  refine ⟨?_, ?_, ?_, ?_, to_bool_ok a⟩
+  · unfold to_u64; rw [hl]; rfl
+  · unfold to_s64; rw [hl]; rfl
+  · unfold to_u32; rw [hl, e32]; rfl
+  · unfold to_s32; rw [hl, e32]; rfl
+
+/-- word round trip: a signed 64-bit value survives `rint<K>(w)` / `ruint<K>(w)` followed by `(int64_t)` at every size -/
+theorem word_roundtrip (n : Nat) (w : Int) (h0 : -(2 : Int) ^ 63 ≤ w) (h1 : w < (2 : Int) ^ 63) : to_s64 (u_of_signed n w) = w := by
+  obtain ⟨hw, he, -⟩ := from_signed_word_exact n w h0 h1
+  obtain ⟨k, hk⟩ := B64_dvd_Bn n
+  have hm : ((val (u_of_signed n w) % B64 : Nat) : Int) = w % (B64 : Int) := by
+    rw [Int.natCast_mod, he, hk, Nat.cast_mul]; exact Int.emod_emod_of_dvd _ (Dvd.intro _ rfl)
+  unfold to_s64
+  rw [ls_limb_ok _ hw]
+  have hlt := Nat.mod_lt (val (u_of_signed n w)) (show 0 < B64 by decide)
+  by_cases hx : val (u_of_signed n w) % B64 < 9223372036854775808
+  · rw [if_pos hx]; simp only [B64] at hm hlt hx ⊢; omega
+  · rw [if_neg hx]; simp only [B64] at hm hlt hx ⊢; omega
+
+/-- `ruint<K>(double b)` for an integer-valued `b` with `|b| < 2^64` (magnitude truncated into the low limb, negated for `b < 0`;
+    at the limb level `static_cast<limb>(b)`, which C++ defines only for `b ≥ 0`): the image `b mod 2^bits`, so `rint<K>(double)` is exact
+    on `|b| < 2^63` -/
+theorem from_double_exact (n : Nat) (d : Int) (h0 : -(2 : Int) ^ 64 < d) (h1 : d < (2 : Int) ^ 64) :
+    WF (u_of_double n d) ∧ (val (u_of_double n d) : Int) = d % Bn n :=
+  u_of_double_ok n d (by simp only [B64]; omega) (by simp only [B64]; omega)
+
+/-- `(double)a`: the code converts **only the least significant limb** (`(double)(Low)` recursively), with the hardware rounding of
+    `uint64_t → double` (nearest, ties to even — `dbl_of_u64_rounding`); it is exact whenever `a < 2^53`, and for `rint` whenever `|a| < 2^53`.
+    For `a ≥ 2^64` the result is the double of `a mod 2^64`, not of `a` (stated, not hidden: `to_double_is_low_limb`). -/
+theorem to_double_exact {n : Nat} (a : RU n) (ha : WF a) :
+    (val a < 2 ^ 53 → u_to_double a = val a) ∧ (-(2 : Int) ^ 53 < sval a → sval a < (2 : Int) ^ 53 → s_to_double a = sval a) :=
+  ⟨fun h => u_to_double_exact a ha (by omega), fun h0 h1 => s_to_double_exact a ha (by omega) (by omega)⟩
+
+theorem to_double_is_low_limb {n : Nat} (a : RU n) (ha : WF a) : u_to_double a = dbl_of_u64 (val a % 2 ^ 64) := u_to_double_ok a ha
+
+/-- the rounding of `(double)(uint64_t v)` for `v ≥ 2^53`: with `p = 2^(⌊log2 v⌋ - 52)` the spacing of doubles at `v`, the result is a
+    multiple of `p` within `p/2` of `v`, and in a tie the even multiple -/
+theorem dbl_of_u64_rounding (v : Nat) (h : 2 ^ 53 ≤ v) :
+    dbl_of_u64 v % 2 ^ (Nat.log2 v - 52) = 0 ∧ 2 * dbl_of_u64 v ≤ 2 * v + 2 ^ (Nat.log2 v - 52) ∧
+    2 * v ≤ 2 * dbl_of_u64 v + 2 ^ (Nat.log2 v - 52) ∧
+    ((2 * dbl_of_u64 v = 2 * v + 2 ^ (Nat.log2 v - 52) ∨ 2 * v = 2 * dbl_of_u64 v + 2 ^ (Nat.log2 v - 52)) →
+      (dbl_of_u64 v / 2 ^ (Nat.log2 v - 52)) % 2 = 0) := dbl_of_u64_rne v (by omega)
+
+example : ∃ w : Int, -(2 : Int) ^ 63 ≤ w ∧ w < (2 : Int) ^ 63 ∧ w < 0 := ⟨-9223372036854775808, by decide, by decide, by decide⟩
+example : ∃ a : RU 1, WF a ∧ ¬ val a < 2 ^ 53 ∧ -(2 : Int) ^ 53 < sval a ∧ sval a < (2 : Int) ^ 53 := ⟨ones 1, by simp [ones, WF, B64], by decide, by decide, by decide⟩
+example : ∃ v : Nat, 2 ^ 53 ≤ v ∧ dbl_of_u64 v ≠ v := ⟨2 ^ 53 + 1, by decide, by decide⟩
 
 /-! ### mixed operands: recursive integer ⊗ built-in scalar -/
 /-- For every size, every well-formed `a` and **every value `w` of every built-in integral type** (`|w| < 2^64` covers u8 … s64 and
